@@ -10,7 +10,7 @@ func init() { propRunners["C08"] = runC08 }
 var badKinds = []string{"complex64", "complex128", "array", "chan", "func", "iface", "uintptr", "unsafeptr"}
 
 var weirdTags = []string{"", "-", "1", "+1", "-1", " 1", "1 ", "01", "007", "1,", "1,,", "1,flat", "1,intern", "1,proto", "1,bogus",
-	"abc", "9223372036854775808", "-9223372036854775809", "-0", "+0", "0x1", "1_0", "1.0", ",1", ",", "--1", "+-1", "1,flat,intern", "٣", "１"}
+	"abc", "536870912", "4294967296", "9223372036854775808", "-9223372036854775809", "-0", "+0", "0x1", "1_0", "1.0", ",1", ",", "--1", "+-1", "1,flat,intern", "٣", "１"}
 
 // anyType: valid and invalid types mixed; bad kinds and unsupported nestings in every position.
 func (g *Gen) anyType(depth int) *TyDef {
